@@ -293,6 +293,9 @@ struct Trace {
     /// per RemoteInfo request that was accepted: (remote, number of addrs or None if no reply)
     infos: Vec<(u8, Option<usize>)>,
     holds_armed: usize,
+    /// a call into the map (as the socket actor makes it) that did not return within an hour
+    /// of virtual time: (op index, what)
+    blocked: Option<(usize, String)>,
 }
 
 const MAX_QUEUED_WHILE_HELD: usize = 10;
@@ -322,6 +325,7 @@ fn execute(c: &Case) -> Trace {
         let mut sent: Vec<Sent> = vec![];
         let mut infos: Vec<InfoSent> = vec![];
         let mut holds_armed = 0usize;
+        let mut blocked: Option<(usize, String)> = None;
         // messages queued per remote while one of its actors is held
         let mut queued_while_held = [0usize; 2];
         let settle = || sleep(Duration::from_millis(2));
@@ -354,7 +358,12 @@ fn execute(c: &Case) -> Trace {
                         let v = rx.await;
                         replies.lock().unwrap().push((idx, now_us(Some(base)), classify(&v)));
                     });
-                    map.resolve_remote(addr, tx).await;
+                    // the socket actor awaits this call: it must return (virtual time: an hour
+                    // passes only if every task is idle and nothing but this timer can fire)
+                    if tokio::time::timeout(Duration::from_secs(3600), map.resolve_remote(addr, tx)).await.is_err() {
+                        blocked = Some((op_index, format!("resolve_remote for remote {r}")));
+                        break;
+                    }
                 }
                 Op::RemoteInfo { remote } => {
                     let r = *remote as usize % 2;
@@ -437,7 +446,7 @@ fn execute(c: &Case) -> Trace {
             t.armed.clear();
             std::mem::take(&mut t.log)
         });
-        Trace { events, sent, replies, infos: info_out, holds_armed }
+        Trace { events, sent, replies, infos: info_out, holds_armed, blocked }
     })
 }
 
@@ -503,6 +512,9 @@ macro_rules! fail {
 pub fn run_case(ctx: &Ctx, emph: Emphasis, c: &Case) -> Outcome {
     let p = ctx.property;
     let trace = execute(c);
+    if let Some((op_index, what)) = &trace.blocked {
+        fail!(p, "caller-blocked-forever", "op #{op_index}: {what} did not return within an hour of virtual time (the socket actor would be stuck and the request is never handled)");
+    }
     let ids = [remote::endpoint_id(10).to_string(), remote::endpoint_id(11).to_string()];
     let mut classes: Vec<&'static str> = vec![];
 
